@@ -566,7 +566,20 @@ func init() {
 						}
 					}
 					beh := "honest"
-					switch rnd.Intn(6) {
+					switch rnd.Intn(8) {
+					case 6:
+						beh = "issuer-sig-corrupted-after-countersign"
+						if _, err := t.Sign(recSigner{rec}, e.w.ver); err != nil {
+							panic(err)
+						}
+						t.IssuerSignature = append([]byte{}, t.IssuerSignature...)
+						t.IssuerSignature[rnd.Intn(len(t.IssuerSignature))] ^= 0x20
+					case 7:
+						beh = "issuer-sig-by-other-key-after-countersign"
+						if _, err := t.Sign(recSigner{rec}, e.w.ver); err != nil {
+							panic(err)
+						}
+						_, t.IssuerSignature = recSigner{other}.Sign(t.GetMessage())
 					case 0:
 						beh = "receiver-sig-by-other-key"
 						_, t.ReceiverSignature = recSigner{other}.Sign(t.GetMessage())
